@@ -305,6 +305,9 @@ var templateSandwiches = [][2]string{
 	{"<?php $a = 1; ?>\n", "\n<?php $b = 2; ?>\n<?php $c = 3;"},
 	{"<?php $a = \"", "\"; ?>\nx\n<?php $c = 3; ?>\n"},
 	{"<?php /*", "*/ $a = 1; ?>\r\n<p>\r\n<?php $b = 2; ?>\r\n<i>"},
+	// a // comment in front of a closing tag on the same line, and one that runs to the end of the line
+	{"<?php $a = 1; // c", " ?>\n<b>\n<?php $b = 2; ?>\n<i>"},
+	{"<?php $a = 1; // c", "\n$b = 2; # d ?>\n<i>\n<?php $c = 3; ?>\n"},
 }
 
 // H_lex_template_spans: span laws (C18) on the token list of TokenizeTemplate.
